@@ -230,7 +230,13 @@ class Recorder():
         self._server.addr.send_msg('/d_free', self._synthdef.name)
         self._synthdef = None
         if self._record_buf is not None:
-            self._record_buf.close(lambda buf: ['/b_free', buf.bufnum])
+            buf = self._record_buf
+            buf.close(lambda buf: ['/b_free', buf.bufnum])
+            # /b_free goes as completion message of /b_close, the
+            # number is given back here as Buffer.free() does.
+            buf._uncache()
+            self._server._buffer_allocator.free(buf.bufnum)
+            buf._bufnum = None
             _logger.info(f'recording stopped: {pathlib.Path(self._path).name}')
             self._record_buf = None
         self._bus = None
